@@ -174,6 +174,7 @@ func LoadWorld(repo string, tests bool) (*World, error) {
 		}
 	}
 	w.buildKinds()
+	theWorld = w
 	return w, nil
 }
 
